@@ -1988,6 +1988,24 @@ impl Unit {
             }
             CursorPass { log: &mut log }.visit_block_mut(&mut block);
         }
+        {
+            // R-WILD: a closure parameter `_` is an unused binding; it is given a name (Verus rejects `_` closure parameters)
+            struct WildPass<'a> { n: usize, log: &'a mut Vec<String> }
+            impl<'a> VisitMut for WildPass<'a> {
+                fn visit_expr_closure_mut(&mut self, c: &mut syn::ExprClosure) {
+                    for p in c.inputs.iter_mut() {
+                        if matches!(p, syn::Pat::Wild(_)) {
+                            let id = quote::format_ident!("__fjx_unused{}", self.n);
+                            self.n += 1;
+                            *p = parse_quote! { #id };
+                            self.log.push("R-WILD closure parameter `_` named".into());
+                        }
+                    }
+                    visit_mut::visit_expr_closure_mut(self, c);
+                }
+            }
+            WildPass { n: 0, log: &mut log }.visit_block_mut(&mut block);
+        }
         // R-FORTMP
         ForTmp { log: &mut log, n: 0 }.visit_block_mut(&mut block);
         // R-SCOPE (after R-TRY so that every exit is an explicit `return`)
